@@ -31,6 +31,7 @@ ASSUMPTIONS = ["the hostile peer's script is finite and ends with EOF (a peer th
                "time budget per parser call 5 s (a 64 KiB PASV payload needs ~2 s because of a quadratic regular expression; "
                "bounded by the stream limit, so not a hang)"]
 REQUIRED_MONITORS = ["hostile_lines", "bystander_vs_solo", "parser_calls", "client_calls"]
+ANCHOR_FUNCTIONS = ['server.py:Server.parse_command', 'client.py:BaseClient.parse_list_line', 'client.py:Client.list.<locals>.AsyncLister.__anext__']
 EXHAUSTIVE = {"quick": False, "thorough": False}
 
 VALID_CMDS = [b"USER anonymous", b"PASS x", b"PWD", b"CWD /dir", b"CDUP", b"MKD /new", b"RMD /new", b"DELE /f.bin", b"RNFR /f.bin",
